@@ -277,6 +277,11 @@ def chan1():
            {"op": "select", "leaves": [LC, LR(2)], "dst": 1, "idx": 2}, E(3, 2), RV(8, 3), E(4, 3), E(5)]),
         # join over the channel and the child's join handle
         A([CH, sp(3, [R(1), SD()], 1), CL, {"op": "join", "leaves": [LC, {"k": "joinh", "h": 1}], "dst": [1, 0]}, E(2)]),
+        # non-blocking looks at a stream (now_or_never) around a blocking request, then a blocking read
+        A([{"op": "open", "tag": 1, "src": {"c": 1}, "s": 1}, {"op": "trynext", "s": 1, "dst": 1}, E(2, 1),
+           R(3, 2), {"op": "trynext", "s": 1, "dst": 1}, E(4, 1), {"op": "next", "s": 1, "dst": 1, "else": 9}, E(5, 1), E(6)]),
+        # a non-blocking look at a channel while the sender still waits for the shell
+        A([CH, sp(3, [R(1), SD()], 1), CL, {"op": "tryrecv", "c": 1, "dst": 2}, E(2, 2), RV(8), E(3, 2), E(4)]),
         # two senders, one of them aborted by the parent after the first message
         A([CH, sp(3, [R(1), SD(), R(2), SD()], 1), sp(4, [R(3), SD()], 2), CL,
            RV(9), E(4, 2), {"op": "abort", "h": 1}, {"op": "goto", "pc": 5}, E(5)]),
